@@ -10,6 +10,7 @@ CONSTANTS
   Loads = {"moderate"}
   PVsA = {FALSE}
   TrafoKindsA = {"none"}
+  LoadsA = {"moderate"}
   Topos2 = {"radial"}
   SlackKinds2 = {"ext_grid"}
   SlackPos2 = {0}
